@@ -39,8 +39,7 @@ M = {
  "c05-initiator-not-key-checked": [("p/p2pke/channel.go",
    "	if err := c.checkKey(&sessRemote); err != nil {\n		c.setNext(sessionEntry{})\n		return err\n	}\n", "")],
  "c05-appdata-before-promotion": [("p/p2pke/channel.go",
-   "			if isApp {\n				appData = out\n				return nil, nil\n			}\n", ""),
-   ("p/p2pke/channel.go", "			// if the session became ready, then make it the current and notify.", "			if isApp {\n				appData = out\n				return nil, nil\n			}\n			// if the session became ready, then make it the current and notify.")],
+   "			// if the session became ready, then make it the current and notify.", "			if isApp {\n				appData = out\n				return nil, nil\n			}\n			// if the session became ready, then make it the current and notify.")],
  "c06-initiator-counter-not-set-at-resphello": [("p/p2pke/session.go",
    "		s.nonce = noncePostHandshake\n		s.hsIndex = 2", "		s.hsIndex = 2")],
  "c06-initdone-accepted-in-any-state": [("p/p2pke/session.go",
